@@ -1183,6 +1183,9 @@ def run(ctx):
     mercurius_scenarios(ctx, build_default(ctx))
 
     ctx.log("phase done: merc-scen")
+    # ---------------- tree re-insertion under MERCURIUS / TRACE
+    tree_reinsert_probe(ctx, build_default(ctx))
+
     # ---------------- remove-all under a tree
     remove_all_tree_probe(ctx, build_default(ctx))
 
@@ -1499,6 +1502,69 @@ def remove_all_tree_probe(ctx, libdir):
                           + (" (signal %d)" % -r.returncode if r.returncode < 0 else ""))
             break
     ctx.obligation("searcher:C14 remove-all under a tree probe ran (%d sizes)" % n, True, "")
+
+
+TREE_REINSERT_SCRIPT = r"""
+import rebound, warnings, sys, json
+warnings.simplefilter("ignore")
+integ, coll, steps = sys.argv[1], sys.argv[2], int(sys.argv[3])
+s = rebound.Simulation()
+s.integrator = integ; s.collision = coll; s.collision_resolve = "hardsphere"; s.configure_box(20., 1, 1, 1); s.dt = 0.05
+s.add(m=1.)
+s.add(m=0.001774061884757375, x=-0.00405361627053903, y=0.9999917840638148, z=-0.0017596172707295063, vx=-1.0005943978957614, vy=-0.004056059055842829, vz=-0.004221079085352732, r=1e-4)
+if integ == "trace":
+    s.add(m=0.00196159795170882, x=-1.5177900436023006, y=-0.6869730941917779, z=-0.013022591113512375, vx=0.31398363426022013, vy=-0.6937116430955735, vz=0.0036561853269254413)
+else:
+    s.add(m=0.00196159795170882, x=-1.0177900436023006, y=0.05, z=-0.013022591113512375, vx=0.0, vy=-1.0, vz=0.0036561853269254413, r=1e-4)
+    s.ri_mercurius.r_crit_hill = 30.
+ri = s.ri_trace if integ == "trace" else s.ri_mercurius
+worst = None
+for k in range(steps):
+    s.steps(1)
+    if ri._encounter_N > ri._N_allocated or ri._encounter_N > s.N + 0 and ri._N_allocated:
+        worst = [k, ri._encounter_N, ri._N_allocated, s.N]; break
+print(json.dumps({"N": s.N, "bad": worst}))
+"""
+
+
+def tree_reinsert_probe(ctx, libdir):
+    """MERCURIUS / TRACE with a tree-based collision search: the tree update re-inserts moved particles; the hybrid
+    bookkeeping must not treat them as new particles (encounter_N <= N_allocated, no access behind encounter_map)."""
+    d = os.path.join(vlib.BUILD, "cases"); os.makedirs(d, exist_ok=True)
+    f = os.path.join(d, "c14_tree_reinsert.py"); open(f, "w").write(TREE_REINSERT_SCRIPT)
+    builds = [("default", vlib.pyenv(libdir))]
+    if ctx.thorough:
+        try:
+            adir = ctx.lib("default", cc="clang", extra_flags=["-fsanitize=address,undefined", "-fno-omit-frame-pointer",
+                                                               "-fno-sanitize-recover=undefined", "-fno-sanitize=nonnull-attribute"], tag="asan")
+            rt = subprocess.run(["clang", "-print-file-name=libclang_rt.asan-x86_64.so"], capture_output=True, text=True).stdout.strip()
+            e = vlib.pyenv(adir); e.update({"ASAN_OPTIONS": "detect_leaks=0:symbolize=0", "LD_PRELOAD": rt})
+            builds.append(("asan", e))
+        except Exception as ex:
+            ctx.obligation("searcher:C14 tree re-insertion probe: ASan build", False, repr(ex)[-300:])
+    n = 0; reported = False
+    for tag, env in builds:
+        for integ, coll in (("trace", "linetree"), ("trace", "tree"), ("mercurius", "tree"), ("mercurius", "linetree")):
+            try:
+                r = subprocess.run([vlib.PY, f, integ, coll, "200"], env=env, capture_output=True, text=True, timeout=300, stdin=subprocess.DEVNULL)
+            except subprocess.TimeoutExpired:
+                continue
+            n += 1; ctx.evaluations += 1
+            o = None
+            for line in (r.stdout or "").splitlines():
+                if line.startswith("{"):
+                    try: o = json.loads(line)
+                    except ValueError: pass
+            san = "AddressSanitizer" in (r.stderr or "")
+            if (san or r.returncode < 0 or (o and o["bad"])) and not reported:
+                reported = True
+                ctx.violation("trace_tree_reinsert_is_treated_as_new_particle",
+                              {"integrator": integ, "collision": coll, "build": tag, "exit": r.returncode, "observed": o,
+                               "sanitizer": " ".join(l for l in (r.stderr or "").splitlines() if "Sanitizer" in l)[:300],
+                               "repro": "build/cases/c14_tree_reinsert.py %s %s 200" % (integ, coll)}, True,
+                              "the tree update's re-insertion of a moved particle is booked by %s as a new particle: encounter_N grows past "
+                              "N_allocated / encounter_map is written behind its allocation" % integ)
+    ctx.obligation("searcher:C14 tree re-insertion probe ran (%d runs)" % n, n > 0, "")
 
 def drive_variation(libdir):
     script = r'''
